@@ -659,6 +659,14 @@ char *macros_expand_params(
       return nullptr;
     }
 
+    // Leave room for the escape pair above and the terminating 0.
+    if (ptr >= (int)sizeof(params) - 4 || count >= 254)
+    {
+      print_error(asm_context, "Macro parameters too long");
+      asm_context->error = 1;
+      return nullptr;
+    }
+
     if (ch == ',' && !in_string && !in_ticks && open_parens == 0)
     {
       params[ptr++] = 0;
